@@ -65,17 +65,25 @@ func fieldChain(v ssa.Value) (base ssa.Value, steps []fieldStep) {
 		case *ssa.FieldAddr:
 			steps = append([]fieldStep{{x.X.Type(), x.Field}}, steps...)
 			v = x.X
-			continue
+			// address arithmetic continues only inside the same object
+			if _, ok := v.(*ssa.FieldAddr); ok {
+				continue
+			}
+			return v, steps
 		case *ssa.Field:
 			steps = append([]fieldStep{{x.X.Type(), x.Field}}, steps...)
 			v = x.X
+			if _, ok := v.(*ssa.Field); ok {
+				continue
+			}
 			// a struct value loaded from a field address continues the chain
 			if u, ok := v.(*ssa.UnOp); ok && u.Op == token.MUL {
 				if _, ok := u.X.(*ssa.FieldAddr); ok {
 					v = u.X
+					continue
 				}
 			}
-			continue
+			return v, steps
 		}
 		return v, steps
 	}
